@@ -6,6 +6,11 @@ ALL = ["C%02d" % i for i in range(1, 21)]
 
 # id -> dict(level, text, note, technique, design_ref, engine)
 CHECKS = {
+ "C09": dict(level="exploration", engine="regen",
+   text="Complete enumeration of the finite set of generated artefacts: all generated files are deleted in a scratch copy of the working tree, genny and ow-specgen (built from the tree) are re-run for every go:generate directive and every OW-SPEC source (ow-specgen three times), and every produced file is compared byte-for-byte with the checked-in one; orphan generated files and catalogue entries without a spec are reported; every OW-SPEC block is parsed independently and compared with the live Description of the catalogued model.",
+   note="About the artefacts in the tree only, not about the generators in general. exhaustive:true means all 47 generated files and all 41 spec blocks were compared.",
+   technique="complete enumeration of a finite artefact space (regenerate-and-compare; independent spec parser vs live catalogue)",
+   design_ref="2/C09"),
  "C17": dict(level="exploration", engine="seqx",
    text="Structured request alphabet for the 39 scalar-parameter models (parameters none/all/each alone/all+unknown/reversed x inputs all/each missing/all missing/each longer/each shorter/extra/reversed x T x splitOutputs) compared with a direct one-cell run incl. log lines and non-finite encoding; all byte strings of length <=3 over a 15-character JSON alphabet and every single-byte deletion/substitution/truncation of three valid requests (no panic, exactly one JSON document, a description when nothing ran); JsonSafeArray over every depth-1 view of three float64 roots with NaN/Inf planted x every shiftDim.",
    note="Requests whose parameters make the direct run itself crash in the model kernel are outside the statement and skipped (determined in fresh processes, counted). Dimensioned models cannot be configured through the request format.",
